@@ -30,6 +30,8 @@ NOTES = {
  "C12-4": "round 2", "C12-5": "round 2; first missed; BUILD-TIME-STATE (clock reading at build time) added", "C12-6": "round 2; first missed; BUILD-TIME-STATE (stateful closure factory) added",
  "C02-4": "round 2; first missed by C02 (reported by C01); WRAP added to C02", "C02-5": "round 2; first missed; the lock-set inference of helper methods now uses the locks held when a deferred call runs", "C02-6": "round 2",
  "C14-4": "round 2; first missed; RELEASE reports a nil teardown on an early return after a live acquisition", "C14-5": "round 2; first missed; an upstream may not be subscribed with an API-supplied context (CTX-PROVENANCE, now also in C14)", "C14-6": "round 2",
+ "C10-4": "round 2", "C10-5": "round 2", "C10-6": "round 2; first missed; unicast backlog-consumed clause of SUBJECT-DELIVERS added",
+ "C11-4": "round 2", "C11-5": "round 2; first missed; the connectable's reset teardown must be registered on every path after the source was subscribed", "C11-6": "round 2",
  "C16-1": "first missed; WATCHDOG-REARM added", "C16-2": "first missed; STATE-LEVEL added to C16 (the counter of a periodic source is per-subscription state)",
  "C20-2": "first missed by C20 (reported by C12): a change to core GroupBy; C20 now re-checks the core premises of the native limiter", "C20-3": "first missed by C20 (reported by C10/C02): a change to the core unicast subject; C20 now re-checks the core premises of the native limiter",
 }
